@@ -1,27 +1,29 @@
 #!/bin/bash
-# ben_recheck.sh [id ...]: evaluate the stored behaviour-preserving changes (/verif/benign/<id>/patch.diff).
-# Each is applied to a scratch worktree of /repo HEAD (never to /repo), all 20 quick rule sets are run on it
-# (without the self-test, evidence and reports go to a scratch directory), and the verdict is stored in
-# /verif/benign/<id>/meta.json: "silent" or the list of alarms (= false alarms of the checker).
+# ben_recheck.sh [id ...]: evaluate the stored behaviour-preserving changes
+# (${BEN_DIR:-/verif/benign}/<id>/patch.diff).  Each is applied to a scratch worktree of /repo HEAD
+# (never to /repo) and all 20 quick rule sets are run on it in one process (`galint checkall`: default
+# build configuration, no self-test, nothing written under /verif).  The verdict goes to <id>/meta.json:
+# "silent", or the list of alarms (= false alarms of the checker).  BEN_JOBS workers (default 6).
+D0=${BEN_DIR:-/verif/benign}
 W=${BEN_WORK:-/tmp/benwork.$$}
-mkdir -p $W/verif
-git -C /repo worktree add -q --detach $W/repo HEAD || exit 2
+J=${BEN_JOBS:-6}
+G=${GALINT:-/verif/bin/galint}
+mkdir -p $W/verif $W/out
 cp /verif/known_functions.txt /verif/known_findings.json $W/verif/
-trap 'git -C /repo worktree remove --force $W/repo; git -C /repo worktree prune; rm -rf $W' EXIT
-ids="$@"; [ -z "$ids" ] && ids=$(ls ${BEN_DIR:-/verif/benign} | grep "^C")
-for L in $ids; do
-  D=${BEN_DIR:-/verif/benign}/$L
-  if ! git -C $W/repo apply --check $D/patch.diff 2>/dev/null; then echo "$L does-not-apply"; continue; fi
-  git -C $W/repo apply $D/patch.diff
-  rm -f $W/alarm.txt
-  for p in ${BEN_PROPS:-01 02 03 04 05 06 07 08 09 10 11 12 13 14 15 16 17 18 19 20}; do
-    ( out=$(/verif/bin/galint check C$p -tier quick -noselftest -repo $W/repo -verif $W/verif 2>&1); if [ $? -ne 0 ]; then echo "C$p: $(echo "$out" | grep -A1 '^VIOLATION' | grep -v '^VIOLATION\|^--' | sed 's/^ *//' | cut -c1-260 | head -4 | tr '\n' '|')" >> $W/alarm.txt; fi ) &
-    while [ $(jobs -r | wc -l) -ge ${BEN_JOBS:-10} ]; do sleep 0.1; done
-  done
-  wait
-  git -C $W/repo checkout -q -- . ; git -C $W/repo clean -fdq
-  if [ -f $W/alarm.txt ]; then echo "$L ALARM"; sort $W/alarm.txt | sed 's/^/    /'; v=alarm; else echo "$L silent"; v=silent; : > $W/alarm.txt; fi
-  python3 - "$D" "$v" "$W/alarm.txt" <<'PY'
+ids="$@"; [ -z "$ids" ] && ids=$(ls $D0 | grep '^C')
+cleanup() { for k in $(seq 1 $J); do git -C /repo worktree remove --force $W/repo$k 2>/dev/null; done; git -C /repo worktree prune; rm -rf $W; }
+trap cleanup EXIT
+worker() {
+  k=$1; shift
+  git -C /repo worktree add -q --detach $W/repo$k HEAD || return
+  for L in "$@"; do
+    D=$D0/$L
+    if ! git -C $W/repo$k apply --check $D/patch.diff 2>/dev/null; then echo "$L does-not-apply" > $W/out/$L.txt; continue; fi
+    git -C $W/repo$k apply $D/patch.diff
+    $G checkall -repo $W/repo$k -verif $W/verif 2>&1 | grep '^C[0-9][0-9]: \|^galint:' > $W/out/$L.alarms
+    git -C $W/repo$k checkout -q -- . ; git -C $W/repo$k clean -fdq
+    if [ -s $W/out/$L.alarms ]; then v=alarm; else v=silent; fi
+    python3 - "$D" "$v" "$W/out/$L.alarms" <<'PY'
 import json,sys,os
 d,v,a=sys.argv[1:4]
 am={}
@@ -30,4 +32,13 @@ except Exception: pass
 alarms=[l.strip() for l in open(a) if l.strip()]
 json.dump({"id":os.path.basename(d),"property":am.get("property",os.path.basename(d)[:3]),"title":am.get("title",""),"kind":am.get("kind",""),"why_preserving":am.get("why_preserving",""),"source":"independent sub-agent given only the property text and a scratch worktree","verdict":v,"alarms":sorted(alarms)},open(os.path.join(d,'meta.json'),'w'),indent=1)
 PY
-done
+    { if [ $v = alarm ]; then echo "$L ALARM"; sed 's/^/    /' $W/out/$L.alarms | cut -c1-300; else echo "$L silent"; fi; } > $W/out/$L.txt
+  done
+}
+# round-robin distribution
+declare -a buckets
+i=0
+for L in $ids; do k=$(( i % J + 1 )); buckets[$k]="${buckets[$k]} $L"; i=$((i+1)); done
+for k in $(seq 1 $J); do [ -n "${buckets[$k]}" ] && worker $k ${buckets[$k]} & done
+wait
+for L in $ids; do cat $W/out/$L.txt 2>/dev/null; done
